@@ -34,6 +34,7 @@ package stanza
 //@   ensures [C17.pop.nil]  (uaq == nil || old(len(uaq.Uslice)) == 0) ==> r == nil
 //@   ensures [C17.pop.head] (uaq != nil && old(len(uaq.Uslice)) > 0) ==> typeof(r) == *UnAckedStz && r.(*UnAckedStz) == old(uaq.Uslice[0])
 //@   ensures [C17.pop.rest] uaq != nil ==> len(uaq.Uslice) == old(len(uaq.Uslice)) - ite(old(len(uaq.Uslice)) > 0, 1, 0) && forall(k, 0, len(uaq.Uslice), uaq.Uslice[k] == old(uaq.Uslice[k + ite(len(uaq.Uslice) > 0, 1, 0)]))
+//@   ensures uaq != nil ==> base(uaq.Uslice) == old(base(uaq.Uslice))
 //@   ensures [C17.pop.elems] uaq != nil ==> forall(k, 0, old(len(uaq.Uslice)), old(uaq.Uslice[k]).Id == old(uaq.Uslice[k].Id) && old(uaq.Uslice[k]).Stz == old(uaq.Uslice[k].Stz))
 //@   ensures wfQueue(uaq)
 //@   assigns uaq.Uslice
@@ -44,6 +45,7 @@ package stanza
 //@   ensures [C17.popn.len]   (uaq != nil && n > 0) ==> len(r) == min(n, old(len(uaq.Uslice)))
 //@   ensures [C17.popn.elems] uaq != nil ==> forall(k, 0, len(r), typeof(r[k]) == *UnAckedStz && r[k].(*UnAckedStz) == old(uaq.Uslice[k]))
 //@   ensures [C17.popn.rest]  uaq != nil ==> len(uaq.Uslice) == old(len(uaq.Uslice)) - len(r) && forall(k, 0, len(uaq.Uslice), uaq.Uslice[k] == old(uaq.Uslice[k + len(r)]))
+//@   ensures uaq != nil ==> base(uaq.Uslice) == old(base(uaq.Uslice))
 //@   ensures [C17.popn.stable] uaq != nil ==> forall(k, 0, old(len(uaq.Uslice)), old(uaq.Uslice[k]).Id == old(uaq.Uslice[k].Id) && old(uaq.Uslice[k]).Stz == old(uaq.Uslice[k].Stz))
 //@   ensures wfQueue(uaq)
 //@   ensures fresh(r)
